@@ -171,7 +171,7 @@ def families():
             yield [{'id': '#r', 'name': [P('x'), P('_t'), L('a')], 'cons': [[['_t', o1], ['_t', o2]]], 'sign': []}]
     # -- F
     args = [L('a'), L('b'), P('x')]
-    for fn in ('$eq', '$ne'):
+    for fn in ('$eq', '$ne', '$first'):
         for a1, a2 in itertools.product(args, repeat=2):
             yield [{'id': '#r', 'name': [P('x'), P('y')], 'cons': [[['y', [['fn', fn, [a1, a2]]]]]], 'sign': []}]
             yield [{'id': '#r', 'name': [P('x'), P('_t')], 'cons': [[['_t', [['fn', fn, [a1, a2]]]]]], 'sign': []}]
